@@ -5,7 +5,6 @@ package main
 // report violations.
 
 import (
-	"context"
 	"encoding/json"
 	"flag"
 	"fmt"
@@ -583,24 +582,9 @@ func cmdSelftest(args []string) int { return 2 }
 // The quantifier-free relaxation is tried first (sat there settles it).
 func coverUnsat(dir string, c *Oblig, decls string) bool {
 	os.MkdirAll(dir, 0o755)
-	var rb strings.Builder
-	rb.WriteString(smtHeader)
-	rb.WriteString(dropQuantified(decls))
-	rb.WriteByte('\n')
-	for _, a := range c.Assume {
-		if strings.Contains(a.S, "forall") || strings.Contains(a.S, "exists") {
-			continue
-		}
-		fmt.Fprintf(&rb, "(assert %s)\n", a.S)
-	}
-	rb.WriteString("(check-sat)\n")
-	f := filepath.Join(dir, sanitize(c.Name)+".cover.smt2")
-	os.WriteFile(f, []byte(rb.String()), 0o644)
-	v, _, _ := runSolver(context.Background(), solvers[0], f, 3)
-	if v == "sat" {
-		return false
-	}
-	// full query, short timeout: only a definite unsat counts
+	// The FULL query (with every quantified axiom): an inconsistent axiom or
+	// precondition makes everything vacuously true, and only the full query
+	// can show it.  Only a definite `unsat` counts.
 	var b strings.Builder
 	b.WriteString(smtHeader)
 	b.WriteString(decls)
@@ -611,6 +595,6 @@ func coverUnsat(dir string, c *Oblig, decls string) bool {
 	b.WriteString("(check-sat)\n")
 	f2 := filepath.Join(dir, sanitize(c.Name)+".coverfull.smt2")
 	os.WriteFile(f2, []byte(b.String()), 0o644)
-	r := solveFile(f2, 3, false)
+	r := solveFile(f2, 2, false)
 	return r.Verdict == "unsat"
 }
